@@ -137,6 +137,16 @@ func normaliseOmitZero(g *GT, v reflect.Value, omit bool) {
 				normaliseOmitZero(g.Elem, v.Index(i), false)
 			}
 		}
+	case "map":
+		if !v.IsNil() {
+			it := v.MapRange()
+			for it.Next() {
+				e := reflect.New(v.Type().Elem()).Elem()
+				e.Set(it.Value())
+				normaliseOmitZero(g.Elem, e, false)
+				v.SetMapIndex(it.Key(), e)
+			}
+		}
 	}
 }
 
